@@ -67,6 +67,14 @@ def generate(rng, tier):
                 while perm == list(range(nr)):
                     rng.shuffle(perm)
                 c['relabel'] = perm
+            elif c['boot'] in ('both', 'rdm') and nr >= 3 and rng.random() < 0.5:
+                # whole groups of RDMs (e.g. the runs of one subject) are resampled: the degrees of freedom count the groups
+                # (defect F50 of the pinned tree, repaired)
+                ng = rng.randint(2, nr - 1)
+                grp = list(range(ng)) + [rng.randrange(ng) for _ in range(nr - ng)]
+                rng.shuffle(grp)
+                c['rgroups'] = grp
+                c['boot_nc'] = False      # per-resample ceilings of grouped RDMs are C07's (the model here has singleton groups)
         elif kind in ('cv', 'icv'):
             c.update(k_pattern=rng.choice([1, 2, 2]), k_rdm=rng.choice([1, 2]), sets=rng.choice(['k_fold', 'k_fold', 'loo_pattern', 'loo_rdm']))
             if kind == 'cv' and c['method'] == 'corr':
@@ -129,7 +137,10 @@ def nontrivial(c):
 def build(c):
     from rsatoolbox.rdm import RDMs
     from rsatoolbox import model as M
-    if c.get('relabel'):
+    if c.get('rgroups'):
+        D = RDMs(np.array(c['data8'], float) / 8,
+                 rdm_descriptors={'g': [7 * g + 3 for g in c['rgroups']], 'pos': list(range(len(c['data8'])))})
+    elif c.get('relabel'):
         D = RDMs(np.array(c['data8'], float) / 8,
                  rdm_descriptors={'index': list(c['relabel']), 'g': list(range(len(c['data8'])))})
     else:
@@ -224,8 +235,9 @@ def run(c):
     elif call == 'boot':
         f = {'both': EV.eval_bootstrap, 'pattern': EV.eval_bootstrap_pattern, 'rdm': EV.eval_bootstrap_rdm}[c['boot']]
         rec = []
-        rd = 'g' if c.get('relabel') else 'index'
-        kwr = dict(rdm_descriptor=rd) if c.get('relabel') else {}
+        rd = 'g' if (c.get('relabel') or c.get('rgroups')) else 'index'
+        kwr = dict(rdm_descriptor=rd) if rd == 'g' else {}
+        pos_key = 'pos' if c.get('rgroups') else rd
         with patched(EV, ['bootstrap_sample', 'bootstrap_sample_pattern', 'bootstrap_sample_rdm'], rec):
             res = f(models, D, theta=thetas, method=c['method'], N=c['N'], boot_noise_ceil=c['boot_nc'], **kwr)
         o = res_summary(res)
@@ -233,7 +245,7 @@ def run(c):
         for n, a, k, out in rec:
             s = out[0]
             pi = out[-1] if n != 'bootstrap_sample_rdm' else np.arange(D.n_cond)
-            samples.append(dict(rdm_pos=[int(x) for x in s.rdm_descriptors[rd]], sel=[int(x) for x in s.pattern_descriptors['index']],
+            samples.append(dict(rdm_pos=[int(x) for x in s.rdm_descriptors[pos_key]], sel=[int(x) for x in s.pattern_descriptors['index']],
                                 drawn=[int(x) for x in pi], vecs=vecs(s)))
         o['samples'] = samples
         np.random.seed(c['seed'])
@@ -407,7 +419,7 @@ def to_coq(c, o):
             return None
         kind = {'both': 0, 'pattern': 1, 'rdm': 2}[c['boot']]
         return (f"(EBoot {fnat(kind)} {m} {n} {fmodels(c)} {fthetas(c)} {fdata(c)} {fbool(c['boot_nc'])} {flist(ss, str)} {fqmat(var.tolist())} "
-                f"{fnat(o['dof'])} {fnat(len(c['data8']))} {fnat(c['n_cond'])})")
+                f"{fnat(o['dof'])} {fnat(len(set(c['rgroups'])) if c.get('rgroups') else len(c['data8']))} {fnat(c['n_cond'])})")
     if call in ('cv', 'icv'):
         ev = np.array(o['evaluations'], float)[0]          # model x fold
         calls = list(o['fitter_calls'])
@@ -501,7 +513,8 @@ def oracle(c, o):
                 if not np.isclose(ev[i, j], want, rtol=1e-9, atol=1e-12, equal_nan=True):
                     return (f'resample {i}, model {j}: stored evaluation {ev[i, j]} != {want} = mean {c["method"]} between the prediction on the drawn '
                             f'conditions {s["sel"]} and the RDMs of the resample')
-        want_dof = {'both': min(D.n_rdm, D.n_cond) - 1, 'pattern': D.n_cond - 1, 'rdm': D.n_rdm - 1}[c['boot']]
+        n_units = len(set(c['rgroups'])) if c.get('rgroups') else D.n_rdm       # the resampled units: descriptor groups of RDMs
+        want_dof = {'both': min(n_units, D.n_cond) - 1, 'pattern': D.n_cond - 1, 'rdm': n_units - 1}[c['boot']]
         if o['dof'] != want_dof:
             return f"dof {o['dof']} != {want_dof}"
         return None
